@@ -363,6 +363,7 @@ sched_point (int kind)
 static struct { unsigned char *p; size_t n; int owner; } maps[64];
 static int nmaps;
 static long n_mapviol;
+static unsigned char *img_pristine;
 static int tid_of_caller (void);
 static void
 on_map (int kind, void *addr, size_t len)
@@ -512,6 +513,14 @@ execute (const unsigned char *pfx, int plen)
   n_mapviol = 0;
   nmaps = 0;
   race_desc[0] = 0;
+  {
+    size_t o = 0;
+    for (int i = 0; i < vh_nimg; i++)
+      {
+        memcpy (vh_img[i].p, img_pristine + o, vh_img[i].n);
+        o += vh_img[i].n;
+      }
+  }
   memset (sh_writer, -1, vh_img_total);
   memset (sh_readers, 0, vh_img_total);
   vh_ent_counter = 1000;
@@ -747,6 +756,17 @@ main (int argc, char **argv)
   sh_writer = malloc (vh_img_total);
   sh_readers = malloc (vh_img_total);
   ever_written = calloc (1, vh_img_total);
+  /* the library's writable image as loaded, before any library call: every execution starts from it, so that whatever the
+     library initialises lazily on first use is initialised again, concurrently, in every explored schedule */
+  img_pristine = malloc (vh_img_total);
+  {
+    size_t o = 0;
+    for (int i = 0; i < vh_nimg; i++)
+      {
+        memcpy (img_pristine + o, vh_img[i].p, vh_img[i].n);
+        o += vh_img[i].n;
+      }
+  }
   /* (3) the library imports no synchronisation or hidden-state libc symbol: the point set above is complete */
   {
     Dl_info li;
